@@ -470,7 +470,6 @@ fn stalled_case(kind: u8, queued_kb: usize, res: &mut CaseResult) {
         (r, later)
     });
     std::thread::sleep(Duration::from_millis(30));
-    let _ = rpc_id;
     // the fault (sequence)
     let accept: Vec<String> = match kind {
         0 => {
@@ -494,13 +493,29 @@ fn stalled_case(kind: u8, queued_kb: usize, res: &mut CaseResult) {
             h.set_end(InEnd::Err(ErrorKind::ConnectionReset));
             vec!["ServerClosedConnection(320,\"going down\")".into()]
         }
-        _ => {
+        4 => {
             // a write error after the stall
             h.with(|st| {
                 st.fail_write_from = Some((st.write_calls, ErrorKind::BrokenPipe));
                 st.budget = usize::MAX;
             });
             vec!["IoErrorWritingSocket(BrokenPipe)".into()]
+        }
+        5 => {
+            // the broker stopped reading, sent its Close and hung up: the Close is there to
+            // be read in the very wake-up in which our pending write fails (a reset)
+            h.with(|st| st.fail_write_from = Some((st.write_calls, ErrorKind::ConnectionReset)));
+            h.inject_then_end(conn_close_frame(320, "going down"), Some(InEnd::Err(ErrorKind::ConnectionReset)));
+            h.with(|st| st.budget = usize::MAX);
+            vec!["ServerClosedConnection(320,\"going down\")".into()]
+        }
+        _ => {
+            // a client exception (the broker sends Channel.Flow, which this client does not
+            // implement) whose Close cannot be written, then the stream ends
+            h.inject(crate::wire::enc_method(rpc_id, amq_protocol::protocol::AMQPClass::Channel(amq_protocol::protocol::channel::AMQPMethod::Flow(amq_protocol::protocol::channel::Flow { active: false }))));
+            std::thread::sleep(Duration::from_millis(5));
+            h.set_end(InEnd::Eof);
+            vec!["ClientException".into()]
         }
     };
     // everybody is released with an error
@@ -796,7 +811,7 @@ pub fn run(rc: &mut RunCtx) {
     }
     // fault sequences with data queued behind a stalled transport
     for rep in 0..rc.n(2, 8) {
-        for kind in 0..5u8 {
+        for kind in 0..7u8 {
             for kb in [0usize, 8, 2000] {
                 let id = format!("stalled:kind{}:{}KB:{}", kind, kb, rep);
                 if !rc.mine(&id) {
@@ -805,7 +820,7 @@ pub fn run(rc: &mut RunCtx) {
                 rc.begin(&id);
                 let mut res = CaseResult::new(id);
                 stalled_case(kind, kb, &mut res);
-                let kind_name = ["EOF", "read error", "server close then EOF", "server close then read error", "write error after the stall"][kind as usize];
+                let kind_name = ["EOF", "read error", "server close then EOF", "server close then read error", "write error after the stall", "server close readable in the wake-up in which the pending write fails", "client exception then EOF"][kind as usize];
                 res.sample = if rep == 0 && kb == 8 { Some(json!({"stalled_transport": true, "fault_kind": kind_name, "queued_kb": kb})) } else { None };
                 rc.end(res);
             }
